@@ -222,15 +222,38 @@ def run(ctx):
         rnd.shuffle(order)
         jobs.append(("[%s]" % ", ".join('"%s"' % r for r in order), rnd.choice(gens), body, 99, "all"))
 
+    # bundled: the construct sits only in a required module (the entry has none of the rule's constructs, the rule
+    # runs on the bundle), alone and with all rules; a job with a 6th field is run with that module and bundling
+    for rule, (idx, exprs, stmts, loopers) in CONSTRUCTS.items():
+        for k in exprs[:2]:
+            module = "local r = " + k + "\nreturn { r = r, f = function() return " + k + " end }"
+            for g in gens:
+                jobs.append(('["%s"]' % rule, g, "local m = require('./m')\nreturn m", idx, rule, module))
+        for k in stmts[:2] + [LOOPS[0].replace("HOLE", l) for l in loopers[:2]]:
+            module = k + "\nlocal function g()\n" + k + "\nend\nreturn g"
+            for g in gens:
+                jobs.append(('["%s"]' % rule, g, "local m = require('./m')\nreturn m", idx, rule, module))
+    for sp in NUMBER_SPELLINGS + ["0b101"]:
+        for g in gens:
+            jobs.append(('["convert_luau_number"]', g, "local m = require('./m')\nreturn m", 5, "convert_luau_number",
+                         "return { v = " + sp + " }"))
+    order = ALL_RULES[:]
+    for g in gens:
+        module = "\n".join(st[0] for _, (_, _, st, _) in CONSTRUCTS.items() if st) + \
+                 "\nlocal q = { " + ", ".join(ex[0] for _, (_, ex, _, _) in CONSTRUCTS.items() if ex) + " }" + \
+                 "\nfor i = 1, 2 do if c then continue end end\nreturn q"
+        jobs.append(("[%s]" % ", ".join('"%s"' % r for r in order), g, "local m = require('./m')\nreturn m", 99, "all", module))
+
     # de-duplicate by (rules, source)
     seen, uniq = set(), []
     for j in jobs:
-        key = (j[0], j[2])
+        key = (j[0], j[2], j[5] if len(j) > 5 else None, j[1] if len(j) > 5 else None)
         if key not in seen:
             seen.add(key)
             uniq.append(j)
     jobs = uniq
-    stdin = "".join("%s\t%s\t%s\n" % (r, g, s.encode().hex()) for r, g, s, _, _ in jobs)
+    stdin = "".join("%s\t%s\t%s%s\n" % (j[0], j[1], j[2].encode().hex(), ("\t" + j[5].encode().hex()) if len(j) > 5 else "")
+                    for j in jobs)
     out = C.harness("dl-rules", ["apply-batch"], input=stdin, timeout=1800)
     lines = out.splitlines()
     if len(lines) != len(jobs):
@@ -239,7 +262,9 @@ def run(ctx):
     coq_cases, index = [], {}
     text_bad, stage_errors, template_errors = [], [], 0
     for job, line in zip(jobs, lines):
-        rules, generator, src, idx, rule = job
+        rules, generator, src, idx, rule = job[:5]
+        if len(job) > 5:
+            src = src + "\n-- src/m.lua:\n" + job[5]
         t_in, t_out, t_e2e, text_hex = line.split("\t")
         if t_in.startswith("ERR:"):
             template_errors += 1
@@ -277,16 +302,18 @@ def run(ctx):
         job, stage = index[k]
         ctx.violation("construct still present after the rule that targets it",
                       {"rules": job[0], "generator": job[1] if stage == "e2e" else None, "stage": stage,
-                       "source": job[2], "feature_index": job[3],
+                       "source": job[2], "bundled_module_src_m_lua": job[5] if len(job) > 5 else None, "feature_index": job[3],
                        "replay": "darklua process with these rules; census: Lua/Census.v feature"},
                       key=classify(job, stage))
     for job, tok, text in text_bad[:3]:
         ctx.violation("Luau-only number spelling %r still present in the written text" % tok,
-                      {"rules": job[0], "generator": job[1], "source": job[2], "output": text},
+                      {"rules": job[0], "generator": job[1], "source": job[2],
+                       "bundled_module_src_m_lua": job[5] if len(job) > 5 else None, "output": text},
                       key=classify(job, "text"))
     for job, stage, t in stage_errors[:3]:
         ctx.violation("darklua failed on a valid program: " + t[:300],
-                      {"rules": job[0], "generator": job[1], "source": job[2], "stage": stage},
+                      {"rules": job[0], "generator": job[1], "source": job[2],
+                       "bundled_module_src_m_lua": job[5] if len(job) > 5 else None, "stage": stage},
                       key=classify(job, stage + "-error"))
     if not proofs_ok and not ctx.violations:
         failed = [n for n, okk, _ in ctx.obligations if not okk]
